@@ -8,6 +8,7 @@ import DdnnfVerif.Model.Optimal
 import DdnnfVerif.Model.Cnf
 import DdnnfVerif.Model.Concurrency
 import DdnnfVerif.Proofs.PDLeaf
+import DdnnfVerif.Proofs.CnfExport
 namespace Ddnnf
 
 def fmtInts (xs : List Int) : String := " ".intercalate (xs.map toString)
@@ -114,6 +115,7 @@ def answer (nodes : List NType) (n : Nat) (kind : String) (args : List String) :
       match args with
       | ans :: q => (QueryFile.fmtLine (parseIntsD q) ans).replace "\n" "\\n"
       | [] => "bad-args"
+  | "cnfok" => toString (litRangeB nodes n && ((tseitin nodes n).next != n + 1) && rootIsLastVarB nodes n)
   | "enumok" => toString (enumOkB nodes)
   | "models" => fmtCfgs (models nodes (rootIx nodes))
   | _ => "unknown-query"
